@@ -298,6 +298,16 @@ RECURSIVE KnownNonStrKey(_)
 KnownNonStrKey(x) == \/ x.k = "dict" /\ DictKeys(x) \cap CoercedKeys # {}
                      \/ LET ch == Children(x) IN \E i \in 1..Len(ch) : KnownNonStrKey(ch[i])
 
+\* what the known defect does and nothing else: every coercible key replaced by its JSON text, a key that
+\* collides keeps the first position and the last value (spec-level; uses only JsonKey and Dedupe)
+RECURSIVE CoercedForm(_)
+CoercedForm(x) ==
+  CASE x.k \in {"list", "tuple"} -> [k |-> x.k, c |-> [i \in 1..Len(x.c) |-> CoercedForm(x.c[i])]]
+    [] x.k = "dict"  -> [k |-> "dict", e |-> Dedupe([i \in 1..Len(x.e) |-> [key |-> JsonKey(x.e[i].key), val |-> CoercedForm(x.e[i].val)]])]
+    [] x.k = "batch" -> [k |-> "batch", cr |-> x.cr,
+                         c |-> [i \in 1..Len(x.c) |-> [st |-> x.c[i].st, r |-> CoercedForm(x.c[i].r), err |-> x.c[i].err]]]
+    [] OTHER -> x
+
 IsLookAlike(x) == x.k = "dict" /\ {"t", "v"} \subseteq DictKeys(x)
 RECURSIVE ContainsLookAlike(_)
 ContainsLookAlike(x) == \/ IsLookAlike(x)
@@ -354,7 +364,8 @@ InitV ==
 Init == /\ InitV
         /\ enc = Encode(v)
         /\ res = IF enc = RejectW THEN RejectW ELSE Decode(enc)
-Next == UNCHANGED <<v, enc, res>>
+\* no transitions: every state is an initial state (run TLC with -deadlock, i.e. deadlock checking off)
+Next == FALSE /\ UNCHANGED <<v, enc, res>>
 Spec == Init /\ [][Next]_<<v, enc, res>>
 
 \* invariants used by the check (RoundTrip with the known-defect escape; the structural ones without)
@@ -367,6 +378,9 @@ InvPlainIffPrimitive     == PlainIffPrimitive(v, enc)
 InvEveryNestedWrapped    == EveryNestedWrapped(v, enc)
 \* the escape is exact: every value with a coerced key that is not rejected IS altered
 InvKnownIsReal           == (KnownNonStrKey(v) /\ ~Rejects(v)) => res # v
+
+\* the escape hides nothing else: a value with coerced keys differs from its round trip by the coercion only
+InvKnownOnlyKeys         == (KnownNonStrKey(v) /\ ~Rejects(v)) => res = CoercedForm(v)
 
 \* probe (Codec_probe.cfg): without the escape the known scenario must be reachable
 InvRoundTripNoEscape     == RoundTrip(v, res)
